@@ -235,3 +235,74 @@ def _nxm_cases(tier, seed, allones):
           return "nx_match re-encoding differs"
         return None
       yield ("nx_match(%s)" % ", ".join("%s=%r" % (c.__name__, v) for c, v in pick), t)
+
+
+# ---------------------------------------------------------------- Nicira vendor MESSAGES (added 2026-09-25)
+
+def _msg_rt(m):
+  p = m.pack()
+  if int.from_bytes(p[2:4], "big") != len(p):
+    return "header length field %d but %d bytes packed" % (int.from_bytes(p[2:4], "big"), len(p))
+  if len(m) != len(p):
+    return "len(obj)=%d but %d bytes packed" % (len(m), len(p))
+  if p[1] != 4 or int.from_bytes(p[8:12], "big") != 0x2320:
+    return "not an OFPT_VENDOR / Nicira message"
+  m2 = type(m)()
+  r = m2.unpack(p, 0)
+  off = r[0] if isinstance(r, tuple) else r
+  if off != len(p):
+    return "decode consumed %s of %d bytes" % (off, len(p))
+  if not (m2 == m):
+    return "decoded message differs from the original"
+  if m2.pack() != p:
+    return "re-encoding differs"
+  return None
+
+
+@standin(P, bound="every Nicira vendor message class x a few field settings (flags, roles, formats; nx_flow_mod with 0..2 NXM "
+                  "match entries and 0..2 actions; nxt_packet_in with 0..2 match entries, data of 0 / 60 bytes)",
+         target="pox.openflow.nicira: nx_flow_mod_table_id, nx_packet_in_format, nx_role_request, nx_role_reply, nx_async_config, "
+                "nx_flow_mod, nxt_packet_in", timeout_s=120)
+def nicira_messages(tier, seed):
+  for en in (True, False):
+    yield ("nx_flow_mod_table_id(enable=%s)" % en, lambda en=en: _msg_rt(nx.nx_flow_mod_table_id(enable=en)))
+  for fmt in (0, 1):
+    yield ("nx_packet_in_format(format=%d)" % fmt, lambda fmt=fmt: _msg_rt(nx.nx_packet_in_format(format=fmt)))
+  for cls in (nx.nx_role_request, nx.nx_role_reply):
+    for role in ("other", "master", "slave"):
+      yield ("%s(%s)" % (cls.__name__, role), lambda cls=cls, role=role: _msg_rt(cls(**{role: True})))
+  if hasattr(nx, "nx_async_config"):
+    yield ("nx_async_config()", lambda: _msg_rt(nx.nx_async_config()))
+  def entries(n):
+    es = []
+    if n >= 1:
+      es.append(nx.NXM_OF_IN_PORT(3))
+    if n >= 2:
+      es.append(nx.NXM_OF_ETH_TYPE(0x800))
+    return es
+  for n in (0, 1, 2):
+    for na in (0, 1, 2):
+      def t(n=n, na=na):
+        fm = nx.nx_flow_mod()
+        for e in entries(n):
+          fm.match.append(e)
+        for i in range(na):
+          fm.actions.append(of.ofp_action_output(port=i + 1))
+        fm.cookie = 0x1122334455667788
+        fm.priority = 7
+        return _msg_rt(fm)
+      yield ("nx_flow_mod(match entries=%d, actions=%d)" % (n, na), t)
+  for n in (0, 1, 2):
+    for dl in (0, 60):
+      def t(n=n, dl=dl):
+        pi = nx.nxt_packet_in()
+        for e in entries(n):
+          pi.match.append(e)
+        pi.data = bytes(range(dl))
+        pi.total_len = dl
+        pi.reason = 1
+        pi.table_id = 2
+        pi.cookie = 9
+        pi.buffer_id = 5
+        return _msg_rt(pi)
+      yield ("nxt_packet_in(match entries=%d, data=%d bytes)" % (n, dl), t)
